@@ -33,7 +33,10 @@ def add_calendar(birth, years, months, days, hours, minutes, seconds=0):
 
 
 def run(ctx):
+    ctx.exhaustive = False
+    ctx.exhaustive_note = '~1,700 sampled (birth, gender) points incl. every exchange-rate boundary'
     from rules import shared
+    ctx.include('effect_inventory', shared.effect_inventory)   # no new process-wide mutable state (MIR statics inventory)
     ctx.include('month_records', shared.month_records)   # leap table, solstice anchor, month memo, memo cells (shared, cached per source hash)
     ctx.include('jd_tables', shared.jd_tables)           # civil date <-> day number per (year, month) (shared, cached per source hash)
     I = ctx.interp(fuel=80000000)
